@@ -23,6 +23,38 @@ if os.environ.get("PYTHONHASHSEED") is None:
     os.execv(sys.executable, [sys.executable] + sys.argv)
 
 
+# Longest wall time a tier is given before the run is declared non-terminating. The budgets inside the checks stop the ENUMERATION
+# (and report a cap); this limit is for the code under test itself: an explored input on which it loops or whose output grows without
+# bound (quick tiers take 2-350 s on this machine, the slowest thorough tier 2400 s).
+HARD_LIMIT_S = {"quick": 1200, "thorough": 4 * 3600}
+
+
+def _arm_watchdog(prop, tier):
+    import signal
+
+    def on_alarm(signum, frame):
+        limit = int(os.environ.get("VERIF_HARD_LIMIT_S") or HARD_LIMIT_S[tier])
+        d = os.path.join(os.environ.get("VERIF_REPLAY_DIR") or os.path.join(HERE, "replays"), prop)
+        os.makedirs(d, exist_ok=True)
+        path = os.path.join(d, "non_termination.json")
+        with open(path, "w") as f:
+            json.dump({"property": prop, "tier": tier, "violation": {"clause": "exploration_does_not_terminate", "site": "watchdog", "shape": [],
+                       "detail": f"the {tier} tier did not finish within {limit} s: the code under test loops or blows up on an explored input"}}, f, indent=1)
+        print(f"VIOLATION property={prop} replay={path}")
+        print(f"  clause=exploration_does_not_terminate: the {tier} tier did not finish within {limit} s (the code under test loops or its "
+              f"output grows without bound on an explored input)")
+        sys.stdout.flush()
+        try:
+            import multiprocessing
+            for ch in multiprocessing.active_children():
+                ch.terminate()
+        except Exception:
+            pass
+        os._exit(1)
+    signal.signal(signal.SIGALRM, on_alarm)
+    signal.alarm(int(os.environ.get("VERIF_HARD_LIMIT_S") or HARD_LIMIT_S[tier]))
+
+
 def main():
     ap = argparse.ArgumentParser()
     ap.add_argument("prop", nargs="?")
@@ -48,6 +80,7 @@ def main():
             return 0
         prop = args.prop.upper()
         mod = importlib.import_module(f"props.{prop.lower()}")
+        _arm_watchdog(prop, args.tier)
         return mod.run(args.tier, seed)
     except SystemExit:
         raise
